@@ -93,6 +93,9 @@ func r15l(c *an.Ctx) {
 		n++
 		check(an.RetVal(r, 0), r.Block(), nil, 0)
 	}
+	if len(an.CallsSuffix(fn, "strings.TrimSpace")) == 0 {
+		bad = append(bad, "the value is compared without having been trimmed (IsEnabled is also asked before ProcessTemplates has trimmed the field)")
+	}
 	sort.Strings(bad)
 	c.Ob("(*core/workflow.roleBase).IsEnabled|only-true-or-1", fn.Pos(), len(bad) == 0 && n > 0,
 		"IsEnabled can answer true for a value other than \"true\"/\"1\" (%s): a role whose enabled expression evaluated to something else (false-like, empty) stays in the tree with its whole subtree", strings.Join(bad, "; "))
